@@ -84,6 +84,12 @@ class VLoop(asyncio.SelectorEventLoop):
 
     # ---- network entry points -------------------------------------------
     async def create_server(self, protocol_factory, host=None, port=None, *, ssl=None, **kw):
+        if getattr(self, "bind_failures", 0) > 0:
+            # the port is still held by somebody else (e.g. the previous instance during a restart)
+            import errno
+
+            self.bind_failures -= 1
+            raise OSError(errno.EADDRINUSE, f"error while attempting to bind on address ({host!r}, {port}): address already in use")
         srv = _CapturedServer(protocol_factory, host, port, ssl, kw)
         self.captured_servers.append(srv)
         return srv
